@@ -15,9 +15,29 @@ PROPS = {
         "assumptions": ["Go's regexp engine agrees with the Brzozowski matcher on IncludeZhRe (tested by every ParseValidNameKV case)",
                         "strings.Index/Split/Join as modelled in Base/GoStr.v (tested by the same cases)"],
     },
+    "C09": {
+        "run": "Run.Run_C09", "subindex": True,
+        "rule": "bounded-exhaustive: every operation sequence of the stated length over 3 keys x 2 values x {Store,Load,Delete,Len} on capacities 0..4, "
+                "observed step by step (outputs, callback log, final Dump order) and recomputed inside Coq from the model and from the abstract LRU; "
+                "plus random sequences of thousands of operations (capacities 0..8, 2..12 keys) that cross the map-rebuild threshold, and a "
+                "default-capacity run with 1500 keys. distinct_nontrivial counts (capacity, first operation) blocks and random configurations; "
+                "the exhaustive sequence count is in distribution.",
+        "trusted": ["translator: lruSize", "correspondence: Go driver c09.go, Run/Run_C09.v, bin/check"],
+        "assumptions": ["container/list and Go maps behave as the list / association-list model (tested by every case)",
+                        "keys and values of the harness are small integers; the model is parametric in them"],
+    },
 }
 
 LEVELS = {
+    "C09": {
+        "text": "Refinement proofs in Coq: the line-by-line model of cache.go refines an abstract most-recent-first list, which refines an order-free "
+                "timestamp specification (evict the entry with the oldest store-or-load), for every operation history and every capacity >= 0, by "
+                "induction over the history with a 7-clause coupling invariant; corollaries: bound, Len exactness, callback log. The model is tied to "
+                "the code by exhaustive short histories and long random ones evaluated in Coq.",
+        "design_ref": "DESIGN.md section 5, C09",
+        "note": "Trusted: Coq kernel + vm_compute; translator (lruSize); correspondence harness. container/list and the Go map are modelled, not verified.",
+        "technique": "Coq refinement proof (two layers, induction over histories) + bounded-exhaustive and random model-vs-implementation correspondence",
+    },
     "C14": {
         "text": "Theorems in Coq about an executable model of ParseValidNameKV / ValidNamesSplit / GenValidKV / RM.Set/Get: no-loss law for "
                 "every byte string, quoted commas never split, builder text, parser round trip and the whole list pipeline for every "
